@@ -249,6 +249,19 @@ def label_builder_shape(fi: FuncInfo, node_keys: str, edge_keys: str, directed: 
             ps_ = concat_parts(origin(defs, c.args[0]))
             if ps_ and len(ps_) == 2 and isinstance(ps_[0], ast.Constant) and ps_[0].value == lead:
                 t_ = origin(defs, ps_[1])
+                if isinstance(t_, ast.Name):
+                    # a name bound once per branch: the binding that precedes the append in the same block
+                    st_ = pm.get(c)
+                    while st_ is not None and not isinstance(st_, ast.stmt):
+                        st_ = pm.get(st_)
+                    own = pm.get(st_)
+                    for f_ in ("body", "orelse"):
+                        blk = getattr(own, f_, None)
+                        if isinstance(blk, list) and any(x is st_ for x in blk):
+                            before = [x for x in blk[:[x is st_ for x in blk].index(True)] if isinstance(x, ast.Assign) and len(x.targets) == 1
+                                      and norm(x.targets[0]) == t_.id]
+                            if before:
+                                t_ = before[-1].value
                 if pmatch(tail_pat, t_) is not None:
                     return t_
             return None
